@@ -42,6 +42,8 @@ GEN += ["DebWin"]  # Gen.DebWin: dataflow programs extracted by translator/extra
 TARGETS += ["IbicusModel.Lemmas.GenDebWinSdm"]  # SDM relative denotes Model.Debiasers.sdmRelative; CDFt steps with one draw list
 TARGETS += ["IbicusModel.Props.Capstone"]  # capstone: C02 stated on the composition of the regenerated pieces (loop spec ∘ per-window program ∘ grid map); the audit imports it
 GEN += ["Loops", "GridLoops", "DebWin", "Debiasers", "IsimipStep6"]  # the groups the capstone composes (lean_phase regenerates every transitively imported group anyway)
+TARGETS += ["IbicusModel.Props.Capstone4"]  # CDFt / QDM apply_on_window as one definition dispatching on the year-window switch (Gen.WinDispatch); the audit imports it
+GEN += ["WinDispatch"]
 
 SHIFTS = [0.5, -0.5, 3.0, -3.0, 1e3, -1e3]
 FACTORS = [0.5, 2.0, 10.0, 250.0, 1.0 / 400.0]  # the extreme factors expose a clipped change factor (seeded C02-1)
